@@ -453,7 +453,7 @@ def base_histories(ctx):
                ['ev', 'on_connection_lost', 0, True]])
     hs.append([['ev', cb, BAD[i % len(BAD)], True] for i, cb in enumerate(CALLBACKS) if cb not in NO_PAYLOAD][:6])
     hs.append([['ev', 'update_received', 1, True]] * 4)
-    n_rand, length = (24, 7) if ctx.thorough else (5, 5)
+    n_rand, length = (10, 7) if ctx.thorough else (5, 5)
     for _ in range(n_rand):
         hs.append([rand_event(rng) for _ in range(rng.randrange(3, length + 1))])
     return hs
